@@ -13,3 +13,4 @@ pub(crate) mod cmpv;
 pub(crate) mod genv;
 pub(crate) mod easyv;
 pub(crate) mod serdev;
+pub(crate) mod allocv;
